@@ -2,7 +2,7 @@
 import math, random
 from fractions import Fraction
 from . import core, sketchcheck
-from .sketchgen import Builder, mapspec, STORES, rand_values
+from .sketchgen import Builder, mapspec, STORES, rand_values, spec_list
 from .core import f2h, nextafter
 
 NAN = float("nan"); INF = float("inf"); MAXF = 1.7976931348623157e308
@@ -11,7 +11,7 @@ def run(tier, seed):
     rng = random.Random(seed)
     ok, log = core.build_vrun()
     nstates = 120 if tier == "quick" else 2500
-    specs = [mapspec(rng)[0] for _ in range(12 if tier == "quick" else 60)]
+    specs = spec_list(rng, 12 if tier == "quick" else 60)
     facts = sketchcheck.learn_specs("C13", specs) if ok else {}
     specs = [s for s in specs if s in facts]
     builders = []
